@@ -11,6 +11,10 @@ import (
 // walkOpts selects which observations a history walk emits.
 type walkOpts struct {
 	roots, prove, lookups, updateData bool
+	// structured: a third of the histories use "txid || output index" leaf hashes (same first 28 bytes within a
+	// block); only for walks that drive the roots-only verifier alone - the pointer forest keys its leaves by a
+	// 12-byte prefix, which such leaves would make collide (outside "barring collisions")
+	structured bool
 	nHist, nBlocks, maxAdd            int
 	rows                              []uint8
 	partRows                          []uint8 // partial map forests
@@ -184,6 +188,11 @@ func walk(cfg runCfg, e *emitter, rng *rand.Rand, o walkOpts) {
 		rf := &refForest{}
 		is := newImplSet(o.rows)
 		is.addPartials(o.partRows)
+		structured := o.structured && hI%3 == 2
+		if structured {
+			is.dead["pol"] = true
+			e.count("structured_leaf_histories")
+		}
 		maxAdd := 1 + rng.Intn(o.maxAdd)
 		nb := 2 + rng.Intn(o.nBlocks)
 		var dead []u.Hash
@@ -192,6 +201,9 @@ func walk(cfg runCfg, e *emitter, rng *rand.Rand, o walkOpts) {
 			dels, strat := pickDels(rng, rf)
 			nAdd := pickAdds(rng, rf.n(), maxAdd)
 			adds := freshLeaves(nAdd)
+			if structured {
+				adds = structuredLeaves(nAdd)
+			}
 			proof, _ := rf.prove(dels)
 			e.count("dels_" + strat)
 			e.count(fmt.Sprintf("adds_%d", min(nAdd, 10)))
@@ -343,7 +355,50 @@ func init() {
 		runUndoHistories(cfg, e, rng, tierN(cfg, 150, 1500))
 	}
 	generators["C11"] = func(cfg runCfg, e *emitter, rng *rand.Rand) {
+		bigBlock(cfg, e, rng)
 		walk(cfg, e, rng, walkOpts{updateData: true, nHist: tierN(cfg, 2000, 12000), nBlocks: 11, maxAdd: tierN(cfg, 9, 40),
-			rows: nil})
+			rows: nil, structured: true})
 	}
+}
+
+// bigBlock: one very large block (size-dependent code paths: queue compaction, reallocation thresholds):
+// 2^k leaves are added, then every other leaf (or a random half) is deleted in ONE block with its honest proof.
+func bigBlock(cfg runCfg, e *emitter, rng *rand.Rand) {
+	for i, k := range []uint{tierN2(cfg, 12, 15), tierN2(cfg, 13, 16)} {
+		e.line("CASE big%d", i)
+		e.line("RESET")
+		rf := &refForest{}
+		st := u.Stump{}
+		adds := freshLeaves(1<<k + i*37)
+		if _, err := st.Update(nil, adds, u.Proof{}); err != nil {
+			e.hfail("Update.stump", "additions rejected: %v", err)
+			return
+		}
+		rf.apply(nil, adds)
+		e.line("BLOCK %s %s", hs(nil), hs(adds))
+		var dels []u.Hash
+		for j, h := range adds {
+			if (i == 0 && j%2 == 0) || (i == 1 && rng.Intn(2) == 0) {
+				dels = append(dels, h)
+			}
+		}
+		proof, _ := rf.prove(dels)
+		more := freshLeaves(3)
+		ud, err := st.Update(dels, more, proof)
+		if err != nil {
+			e.hfail("Update.stump", "honest big block rejected: %v", err)
+			return
+		}
+		e.line("UD stump %s %s %s %d %s %s", hs(dels), hs(more), us(ud.ToDestroy), ud.PrevNumLeaves,
+			pairs(ud.NewDelPos, ud.NewDelHash), pairs(ud.NewAddPos, ud.NewAddHash))
+		e.count("big_blocks")
+		e.distinct(fmt.Sprintf("big:%d:%d", len(adds), len(dels)))
+	}
+}
+
+func tierN2(cfg runCfg, quick, thorough uint) uint {
+	if cfg.tier == "thorough" {
+		return thorough
+	}
+	return quick
 }
